@@ -58,7 +58,8 @@ func wrap1(x string, w int) string {
 }
 func wrapN(x string, w int) string {
 	h, m := pow2(w-1), pow2(w)
-	return fmt.Sprintf("(- (mod (+ %s %s) %s) %s)", x, h, m, h)
+	// the in-range case first: linear solvers then never have to look at the mod term when no wrap-around occurs
+	return fmt.Sprintf("(let ((px %s)) (ite (and (<= (- %s) px) (< px %s)) px (- (mod (+ px %s) %s) %s)))", x, h, h, h, m, h)
 }
 func uns(x string, w int) string {
 	return fmt.Sprintf("(let ((ux %s)) (ite (< ux 0) (+ ux %s) ux))", x, pow2(w))
@@ -190,6 +191,25 @@ func BodyInt(t *Term) string {
 			return fmt.Sprintf("(div %s %s)", a(0), pow2(int(k)))
 		}
 	case OBAnd:
+		if t.Args[1].IsConst() && t.Args[1].C != 0 {
+			// mask = one contiguous run of ones, bits lo..hi: ((U(x) div 2^lo) mod 2^(hi-lo+1)) * 2^lo
+			c := t.Args[1].C
+			lo := 0
+			for (c>>uint(lo))&1 == 0 {
+				lo++
+			}
+			hi := lo
+			for hi+1 < 64 && (c>>uint(hi+1))&1 == 1 {
+				hi++
+			}
+			run := uint64(0)
+			for b := lo; b <= hi; b++ {
+				run |= 1 << uint(b)
+			}
+			if run == c && lo > 0 && hi < w {
+				return sgn(fmt.Sprintf("(* (mod (div %s %s) %s) %s)", uns(a(0), w), pow2(lo), pow2(hi-lo+1), pow2(lo)), w)
+			}
+		}
 		if t.Args[1].IsConst() {
 			c := t.Args[1].C
 			if c&(c+1) == 0 && c != 0 { // 2^k-1
